@@ -26,6 +26,22 @@ DIMS = [1, 2, 3, 4, 5, 8, 12]
 TOL_EXP = 1e-9      # expm / expm_multiply / sparse expm / eigsh below dimension 4 (observed <= 1e-14)
 TOL_ODE = 2e-2      # solve_ivp with its defaults rtol=1e-3, atol=1e-6; |H|_2 * t <= 3 (observed <= 4e-3)
 
+# large local problems (the sizes of TDVP site / two-site tensors): dimensions in the hundreds, |H|_2 * |t| up to 30
+BIG_MODES = ["FASTEST"] * 8 + ["CHEBYSHEV"] * 3 + ["EXPM"] * 3 + ["SPARSE"] + ["RK45", "RK23", "DOP853", "BDF"]
+BIG_HT = [0.5, 3.0, 10.0, 30.0]          # |H|_2 * |t| of the exponential kernels (ODE modes: <= 3, where TOL_ODE is stated)
+BIG_HKINDS = ["herm", "nonherm", "herm", "nonherm", "realsym", "tridiag", "blockdiag", "lowertri", "uppertri", "upper", "lower", "cdiag"]
+
+
+def big_dim(rng):
+    """a dimension in the hundreds: any integer in 100..330, or the size of a site tensor bond x bond x physical."""
+    if rng.random() < 0.5:
+        return rng.randrange(100, 331)
+    while True:
+        n = rng.randrange(3, 17) * rng.randrange(3, 17) * rng.randrange(2, 6)
+        if 100 <= n <= 400:
+            return n
+
+
 KF_ODE0 = "C20-ode-zero-duration"
 KF_EIGSH = "C20-eigsh-dim>=4"
 KF_REAL = "C20-ode-real-psi"
@@ -191,6 +207,19 @@ def taylor_expm(a):
 
 def reference(h, t, forward, vec, hermitian):
     sgn = -1.0 if forward else 1.0
+    if hermitian and np.asarray(h).shape[0] >= 64:
+        # large Hermitian matrices: the eigendecomposition, certified by its residual and the unitarity of the eigenvectors
+        # (|H V - V diag(w)| and |V^dagger V - 1| at rounding level bound the error of V exp(-/+ i w t) V^dagger by about
+        # |t| times the residual) instead of the second (Taylor) evaluation
+        hc = np.asarray(h, dtype=complex)
+        w, v = np.linalg.eigh(hc)
+        n = hc.shape[0]
+        hn = max(np.linalg.norm(hc), 1e-300)
+        res = max(np.linalg.norm(hc - hc.conj().T) / hn, np.linalg.norm(hc @ v - v * w) / hn,
+                  np.linalg.norm(v.conj().T @ v - np.eye(n)) / math.sqrt(n))
+        if not (res * max(1.0, abs(t) * np.linalg.norm(hc, 2)) <= 1e-11):
+            raise RuntimeError(f"the eigendecomposition used as reference has residual {res}")   # a bug of this harness
+        return v @ (np.exp(sgn * 1j * w * t) * (v.conj().T @ vec.astype(complex)))
     r1 = taylor_expm(sgn * 1j * t * np.asarray(h, dtype=complex)) @ vec.astype(complex)
     if hermitian:
         w, v = np.linalg.eigh(np.asarray(h, dtype=complex))
@@ -199,7 +228,25 @@ def reference(h, t, forward, vec, hermitian):
         if dev > 1e-11:
             raise RuntimeError(f"the two references disagree by {dev}")   # a bug of this harness
         return r2
+    if np.asarray(h).shape[0] >= 64:
+        # large non-Hermitian matrices: the Taylor reference is cross-checked against SciPy's Pade expm (used as a
+        # self-check of this harness only; the verdict is taken with the numpy Taylor value)
+        import scipy.linalg
+        r3 = _orig_expm()(sgn * 1j * t * np.asarray(h, dtype=complex)) @ vec.astype(complex)
+        dev = np.linalg.norm(r1 - r3) / max(np.linalg.norm(r3), np.linalg.norm(vec), 1e-300)
+        if dev > 1e-10:
+            raise RuntimeError(f"the Taylor and Pade references disagree by {dev}")   # a bug of this harness
     return r1
+
+
+_ORIG_EXPM = []
+
+
+def _orig_expm():
+    """scipy.linalg.expm itself (not a recording wrapper of it)."""
+    import scipy.linalg
+    f = scipy.linalg.expm
+    return _ORIG_EXPM[0] if _ORIG_EXPM else f
 
 
 # ---------------------------------------------------------------------------------------
@@ -226,6 +273,8 @@ class Recorder:
         self.homes = [(scipy.integrate, "solve_ivp", "solve_ivp"), (scipy.linalg, "expm", "expm"),
                       (scipy.sparse.linalg, "expm_multiply", "expm_multiply"), (scipy.sparse.linalg, "eigsh", "eigsh"),
                       (scipy.sparse.linalg, "expm", "expm_sparse")]
+        if not _ORIG_EXPM and getattr(scipy.linalg.expm, "_c20_wrapper", None) is None:
+            _ORIG_EXPM.append(scipy.linalg.expm)
         self.calls = []
         self.depth = 0
         self.on = False
@@ -392,7 +441,14 @@ class C20(Prop):
             "C-ordered transpose / conjugate / negative / negative transpose / strided view / the same object modified in place by the caller, "
             "or the duration (t, 2t, -t, 0), the direction, the mode, psi (same object / fresh / the previous result); every call is "
             "judged on its own against the reference for the arrays it was given, a chained opposite-direction call must return to the start; "
-            "dimension <= 8 (EIGSH histories: <= 3); fast_exp_action cases: every accepted mode string, "
+            "dimension <= 8 (EIGSH histories: <= 3); LARGE local problems (12 time_evolve cases, thorough 90; 2 histories, thorough 12; "
+            "4 fast_exp_action cases, thorough 24): dimension any integer in 100..330 or a site-tensor size bond x bond x physical in 100..400, "
+            "modes FASTEST (about 40%), CHEBYSHEV, EXPM, SPARSE and the four solve_ivp modes (EIGSH proper is the known finding), "
+            "|H|_2 * |t| in {0.5, 3, 10, 30} (solve_ivp: {0.5, 1.5, 3}), t in {0.01, 0.05, 0.5, 0.7, 2, -0.4}, H Hermitian / non-Hermitian / "
+            "real symmetric / banded / block diagonal / triangular / nilpotent / complex diagonal, psi complex of order 1/2/3, all layouts; "
+            "reference there: for Hermitian H the eigendecomposition certified by its residual and unitarity, for non-Hermitian H the numpy "
+            "Taylor value cross-checked against SciPy's Pade expm (self-checks of the harness); "
+            "fast_exp_action cases: every accepted mode string, "
             "unknown strings; malformed cases: non-square H or size mismatch (both sides must reject). "
             "non-trivial = dimension >= 2 and t > 0; distinct by case content. "
             f"Oracle tolerances (relative to max(|reference|,|psi|)): {TOL_EXP:g} for expm/expm_multiply/sparse/eigsh(dim<4), "
@@ -463,6 +519,18 @@ class C20(Prop):
         for rep in range(nh):
             for mode in MODES:
                 cases.append(self._gen_history(rng, mode, dims))
+        # LARGE local problems: dimensions in the hundreds (site tensors with bonds around 10), |H|_2 |t| up to 30
+        nb = ctx.scale(12, 90) * (budget_scale if stream != "main" else 1)
+        for rep in range(nb):
+            cases.append(self._gen_big_te(rng, BIG_MODES[rep % len(BIG_MODES)] if rep < len(BIG_MODES) and thorough else rng.choice(BIG_MODES)))
+        for rep in range(ctx.scale(2, 12) * (budget_scale if stream != "main" else 1)):
+            hist = self._gen_history(rng, rng.choice(["FASTEST", "FASTEST", "CHEBYSHEV", "EXPM", "RK45", "DOP853"]), dims, big=True)
+            cases.append(hist)
+        for rep in range(ctx.scale(4, 24) * (budget_scale if stream != "main" else 1)):
+            t = rng.choice([0.01, 0.7])
+            cases.append({"kind": "fea", "md": rng.choice(["fastest", "fastest", "chebyshev", "expm", "sparse", "none"]), "n": big_dim(rng), "t": t,
+                          "forward": rng.random() < 0.5, "hkind": rng.choice(BIG_HKINDS), "hnorm": 1.5, "ht": rng.choice(BIG_HT),
+                          "seed": rng.randrange(10 ** 6)})
         # fast_exp_action directly
         mds = ["fastest", "expm", "eigsh", "chebyshev", "sparse", "none", "bogus", "RK45", "EXPM", "", "Fastest"]
         for md in mds:
@@ -479,12 +547,24 @@ class C20(Prop):
         return cases
 
     @staticmethod
-    def _gen_history(rng, mode, dims):
+    def _gen_big_te(rng, mode):
+        """one time_evolve call on a LARGE local problem: dimension 100..400, |H|_2 * |t| in {0.5, 3, 10, 30} for the
+        exponential kernels (<= 3 for the solve_ivp modes, where their tolerance is stated), Hermitian, non-Hermitian and
+        structured H, both directions, psi of order 1/2/3, positive and negative durations."""
+        t = rng.choice([0.01, 0.05, 0.5, 0.7, 2.0, -0.4])
+        ht = rng.choice([0.5, 1.5, 3.0]) if mode in ODE else rng.choice(BIG_HT)
+        return {"kind": "te", "mode": mode, "forward": rng.random() < 0.5, "n": big_dim(rng), "order": rng.choice([1, 2, 3, 3]), "t": t,
+                "hkind": rng.choice(BIG_HKINDS), "hnorm": 1.5, "ht": ht, "pdtype": "complex", "seed": rng.randrange(10 ** 6)}
+
+    @staticmethod
+    def _gen_history(rng, mode, dims, big=False):
         """2..5 calls; from one call to the next usually ONE thing changes (the matrix variant, else the duration, the
         direction, the mode or psi), so that every pair `same arguments but for x` occurs."""
         n = rng.choice([d for d in dims if d <= 8])
         if mode == "EIGSH":
             n = rng.choice([1, 2, 3])                 # eigsh proper (dimension >= 4) is the known finding
+        if big:
+            n = big_dim(rng)
         t0 = rng.choice([0.01, 0.3, 0.7, -0.4])
         tpool = [t0, 2 * t0, -t0, 0.0]
         step = {"mode": mode, "forward": rng.random() < 0.5, "t": t0, "h": rng.choice(["same", "copy", "Tcopy", "T", "F"]), "psi": "new"}
@@ -499,15 +579,20 @@ class C20(Prop):
             elif r < 0.75:
                 step["forward"] = not step["forward"]
             elif r < 0.85:
-                step["mode"] = rng.choice([m for m in MODES if m != "EIGSH" or n <= 3])
+                step["mode"] = rng.choice([m for m in MODES if (m != "EIGSH" or n <= 3) and not (big and m == "SPARSE")])
             else:
                 step["h"] = rng.choice(H_VARIANTS)
                 step["t"] = rng.choice(tpool)
                 step["forward"] = rng.random() < 0.5
             step["psi"] = rng.choice(["same", "same", "new", "prev"])
             steps.append(dict(step))
-        return {"kind": "hist", "n": n, "order": rng.choice([1, 2, 3]), "hkind": rng.choice(["herm", "nonherm"]) if rng.random() < 0.6 else rng.choice(STRUCTURED),
+        case = {"kind": "hist", "n": n, "order": rng.choice([1, 2, 3]), "hkind": rng.choice(["herm", "nonherm"]) if rng.random() < 0.6 else rng.choice(STRUCTURED),
                 "hnorm": rng.choice([0.5, 1.5, 3.0]), "pdtype": "complex", "steps": steps, "seed": rng.randrange(10 ** 6)}
+        if big:
+            # |H|_2 * max|t| of the history; solve_ivp steps may occur, so <= 3 unless no step can reach an ODE mode
+            ode = any(st["mode"] in ODE for st in steps)
+            case["ht"] = rng.choice([0.5, 1.5, 3.0]) if ode else rng.choice(BIG_HT)
+        return case
 
     def nontrivial(self, case):
         if case["kind"] == "hist":
@@ -523,9 +608,13 @@ class C20(Prop):
         c = Counter()
         for x in cases:
             c["kind:" + x["kind"]] += 1
+            if x["kind"] == "fea" and "ht" in x:
+                c["fea:large(n>=100):" + x["md"]] += 1
             if x["kind"] == "hist":
                 c["hist:steps=%d" % len(x["steps"])] += 1
                 c["hist:H:" + x["hkind"]] += 1
+                if "ht" in x:
+                    c["hist:large(n>=100)"] += 1
                 for st in x["steps"]:
                     c["hist:step-mode:" + st["mode"]] += 1
                     c["hist:step-H:" + st["h"]] += 1
@@ -533,7 +622,11 @@ class C20(Prop):
             if x["kind"] == "te":
                 c["Hlayout:" + ["C", "C", "F", "transposed-view"][(x["seed"] // 4) % 4]] += 1
                 c["mode:" + x["mode"]] += 1
-                c["n:%d" % x["n"]] += 1
+                c[("n:%d" % x["n"]) if x["n"] <= 12 else "n:100-144" if x["n"] <= 144 else "n:145-191" if x["n"] < 192 else "n:192-400"] += 1
+                if "ht" in x:
+                    c["large:mode:" + x["mode"]] += 1
+                    c["large:|H||t|=%g" % x["ht"]] += 1
+                    c["large:H:" + ("hermitian" if is_hermitian_kind(x["hkind"]) else "non-hermitian")] += 1
                 c["order:%d" % x["order"]] += 1
                 c["t:%g" % x["t"]] += 1
                 c["H:" + x["hkind"]] += 1
@@ -551,7 +644,10 @@ class C20(Prop):
             return h, psi, case["shape"]
         n = case["n"]
         t = max(abs(st["t"]) for st in case["steps"]) if case["kind"] == "hist" else case["t"]
-        h = build_h(case["hkind"], n, rs, case["hnorm"] / max(abs(t), 1.0))
+        if "ht" in case and t != 0:
+            h = build_h(case["hkind"], n, rs, case["ht"] / abs(t))          # |H|_2 * |t| = ht
+        else:
+            h = build_h(case["hkind"], n, rs, case["hnorm"] / max(abs(t), 1.0))
         if case["kind"] == "fea":
             return h, build_psi("complex", [n], rs), [n]
         shape = shapes_of(n, case["order"], rs)
